@@ -96,23 +96,17 @@ Proof.
         apply andb_true_iff in Hst as [Hst _]. rewrite onhd_hd in Hst. exact Hst.
       - simpl. now rewrite (numsuffix_not_numch _ Hsuf). }
     cbn [app]. rewrite (span_app _ _ _ Hr Hn).
-    assert (Hnoext :
-      match suf ++ X with
-      | sg :: r' => if is_sign sg && ends_exp (c :: run0)
-                    then let (run2, r2) := span is_alnum r' in (sg :: run2, r2)
-                    else ([], suf ++ X)
-      | [] => ([], [])
-      end = ([], suf ++ X)).
-    { destruct (suf ++ X) as [|sg r'] eqn:EX; [reflexivity|].
-      assert (Hs : (is_sign sg && ends_exp (c :: run0)) = false); [|now rewrite Hs].
-      destruct suf as [|x [|y suf]]; [| |discriminate].
-      - simpl in *. subst X. simpl in Hst. apply andb_true_iff in Hst as [_ Hst].
+    destruct (suf ++ X) as [|sg r'] eqn:EX.
+    { apply app_eq_nil in EX as [-> ->]. reflexivity. }
+    assert (Hs : (is_sign sg && ends_exp (c :: run0)) = false).
+    { destruct suf as [|x [|y suf]]; [| |discriminate].
+      - simpl in EX. subst X. simpl in Hst. apply andb_true_iff in Hst as [_ Hst].
         apply andb_true_iff in Hst as [_ Hst]. apply negb_true_iff in Hst.
         now rewrite andb_comm.
       - simpl in EX. inversion EX; subst. now rewrite (numsuffix_not_sign _ Hsuf). }
-    rewrite Hnoext.
+    rewrite Hs. rewrite <- EX.
     rewrite take_suffix_app; [reflexivity | exact Hsuf |].
-    intro Hnil. rewrite (Hsx Hnil). destruct suf; [|discriminate]. simpl in Hst.
+    intro Hnil. rewrite <- onhd_hd. destruct suf; [|discriminate]. simpl in Hst.
     now apply andb_true_iff in Hst as [Hst _].
   - (* exponent sign and digits *)
     apply andb_true_iff in Hext as [Hext Hr2]. apply andb_true_iff in Hext as [Hsg Hee].
@@ -126,7 +120,7 @@ Proof.
       - simpl. now rewrite (numsuffix_not_alnum _ Hsuf). }
     rewrite (span_app _ _ _ Hr2 Hn2).
     rewrite take_suffix_app; [reflexivity | exact Hsuf |].
-    intro Hnil. rewrite (Hsx Hnil). destruct suf; [|discriminate]. simpl in Hst.
+    intro Hnil. rewrite <- onhd_hd. destruct suf; [|discriminate]. simpl in Hst.
     now apply andb_true_iff in Hst as [Hst _].
 Qed.
 
@@ -178,9 +172,11 @@ Lemma spec_data kw p X :
   spec_goal (TData kw p) X.
 Proof.
   cbn [tok_ok stops]. intros Hok Hst.
+  apply andb_true_iff in Hok as [Hok H6]. apply andb_true_iff in Hok as [Hok H5].
+  apply andb_true_iff in Hok as [Hok H4]. apply andb_true_iff in Hok as [Hok H3].
+  apply andb_true_iff in Hok as [Hw H2].
   destruct kw as [|c run0]; [discriminate|].
-  repeat (apply andb_true_iff in Hok as [Hok ?]).
-  pose proof Hok as Hw. simpl in Hw. apply andb_true_iff in Hw as [Hc Hr].
+  pose proof Hw as Hw'. simpl in Hw'. apply andb_true_iff in Hw' as [Hc Hr].
   destruct (disp_alpha c Hc) as (D1 & D2 & D3 & D4 & D5 & D6 & D7 & D8).
   exists c, (run0 ++ p). split; [reflexivity|]. split; [exact D8|].
   unfold next_tok. rewrite D1, D2, D3, D4, D5, D6, D7, Hc. cbn [orb andb].
@@ -193,14 +189,13 @@ Proof.
     apply orb_true_iff in Hst as [Hst|Hst]; [now apply Q1 | now apply Q2]. }
   assert (Hn : negb (hd_is is_alnum (p ++ X)) = true).
   { apply negb_true_iff. apply Hfol; [apply nl_not_alnum | apply colon_not_alnum |].
-    now apply negb_true_iff. }
+    now apply negb_true_iff in H6. }
   rewrite (span_app _ _ _ Hr Hn).
   assert (Hdl : hd_is is_dollar (p ++ X) = false).
-  { apply Hfol; [intros x Hx; bz | intros x Hx; bz | now apply negb_true_iff]. }
+  { apply Hfol; [intros x Hx; bz | intros x Hx; bz | now apply negb_true_iff in H5]. }
   rewrite Hdl. cbn [negb]. rewrite andb_true_r.
-  match goal with H : negb (is_rem _) = true |- _ => apply negb_true_iff in H; rewrite H end.
-  match goal with H : is_dat _ = true |- _ => rewrite H end.
-  rewrite scan_data_app; [reflexivity | assumption | exact Hst].
+  apply negb_true_iff in H2. rewrite H2, H3. cbn [andb].
+  rewrite scan_data_app; [reflexivity | exact H4 | exact Hst].
 Qed.
 
 Lemma spec_rem kw b X :
@@ -208,9 +203,10 @@ Lemma spec_rem kw b X :
   spec_goal (TRem kw b) X.
 Proof.
   cbn [tok_ok stops]. intros Hok Hst.
+  apply andb_true_iff in Hok as [Hok H6]. apply andb_true_iff in Hok as [Hok H5].
+  apply andb_true_iff in Hok as [Hok H4]. apply andb_true_iff in Hok as [Hw H3].
   destruct kw as [|c run0]; [discriminate|].
-  repeat (apply andb_true_iff in Hok as [Hok ?]).
-  pose proof Hok as Hw. simpl in Hw. apply andb_true_iff in Hw as [Hc Hr].
+  pose proof Hw as Hw'. simpl in Hw'. apply andb_true_iff in Hw' as [Hc Hr].
   destruct (disp_alpha c Hc) as (D1 & D2 & D3 & D4 & D5 & D6 & D7 & D8).
   exists c, (run0 ++ b). split; [reflexivity|]. split; [exact D8|].
   unfold next_tok. rewrite D1, D2, D3, D4, D5, D6, D7, Hc. cbn [orb andb].
@@ -219,13 +215,13 @@ Proof.
                            hd_is q b = false -> hd_is q (b ++ X) = false).
   { intros q Q1 Hq. apply hd_is_app_or; [exact Hq|]. intros ->. now apply eol_not. }
   assert (Hn : negb (hd_is is_alnum (b ++ X)) = true).
-  { apply negb_true_iff. apply Hfol; [apply nl_not_alnum | now apply negb_true_iff]. }
+  { apply negb_true_iff. apply Hfol; [apply nl_not_alnum | now apply negb_true_iff in H6]. }
   rewrite (span_app _ _ _ Hr Hn).
   assert (Hdl : hd_is is_dollar (b ++ X) = false).
-  { apply Hfol; [intros x Hx; bz | now apply negb_true_iff]. }
+  { apply Hfol; [intros x Hx; bz | now apply negb_true_iff in H5]. }
   rewrite Hdl. cbn [negb]. rewrite andb_true_r.
-  match goal with H : is_rem _ = true |- _ => rewrite H end.
-  rewrite span_app; [reflexivity | assumption | now apply eol_nhd_not_nl].
+  rewrite H3. cbn [andb].
+  rewrite span_app; [reflexivity | exact H4 | now apply eol_nhd_not_nl].
 Qed.
 
 Lemma spec_op o X :
@@ -243,7 +239,7 @@ Proof.
     destruct (is_relch c) eqn:Hr.
     + destruct (disp_rel c Hr) as (_ & _ & _ & _ & _ & D6 & D7 & _ & _).
       rewrite D6, D7. cbn [orb andb]. unfold lex_rel.
-      destruct X as [|d X]; [reflexivity|]. cbn [hd_error onhd ohd] in Hst.
+      destruct X as [|d X]; [reflexivity|]. unfold onhd, ohd in Hst. cbn [hd_error] in Hst.
       apply negb_true_iff in Hst. now rewrite Hst.
     + assert (H46 : ((c =? 46) && hd_is is_digit X) = false).
       { destruct (c =? 46); [|reflexivity]. rewrite onhd_hd in Hst.
@@ -303,11 +299,9 @@ Proof.
       apply andb_true_iff in H as [H _]. now destruct (disp_rel c H) as (_&_&_&_&_&_&_&_&D9).
   - eexists _, _. split; reflexivity.
   - destruct kw as [|c r]; [discriminate|]. exists c, (r ++ payload). split; [reflexivity|].
-    repeat (apply andb_true_iff in H as [H ?]). simpl in H. apply andb_true_iff in H as [H _].
-    now apply alpha_not_blank.
+    repeat (apply andb_true_iff in H as [H ?]). now apply alpha_not_blank.
   - destruct kw as [|c r]; [discriminate|]. exists c, (r ++ body). split; [reflexivity|].
-    repeat (apply andb_true_iff in H as [H ?]). simpl in H. apply andb_true_iff in H as [H _].
-    now apply alpha_not_blank.
+    repeat (apply andb_true_iff in H as [H ?]). now apply alpha_not_blank.
   - eexists _, _. split; reflexivity.
   - eexists _, _. split; reflexivity.
 Qed.
